@@ -11,8 +11,19 @@ ADDR = ("A", "B", None, "unknown")
 POLS = ("Never", "Also", "Only")
 
 
+_MSG_CACHE = {}
+
+
 def msg_of(kind, dev):
-    """one representative library message of a kind addressed to dev (None = no device attr)."""
+    """one representative library message of a kind addressed to dev (None = no device attr).
+    Cached: the router and the recorders never mutate a message."""
+    key = (kind, dev)
+    if key not in _MSG_CACHE:
+        _MSG_CACHE[key] = _msg_of(kind, dev)
+    return _MSG_CACHE[key]
+
+
+def _msg_of(kind, dev):
     from mc import lib
 
     k = G.KINDS[kind]
@@ -26,7 +37,12 @@ def msg_of(kind, dev):
         return None  # kind cannot be built without a device
     if "device" not in names and dev is not None:
         return None  # kind has no device attribute: only the unaddressed form exists
-    return lib.build((kind, attrs, d[2], d[3]))
+    m = lib.build((kind, attrs, d[2], d[3]))
+    # as in real use, the router sees messages that came out of the parser (attribute and text values are
+    # fresh str objects, never the interned constants of indi.message.const)
+    import indi.message as M
+
+    return M.IndiMessage.from_string(m.to_string())
 
 
 class Sys:
@@ -96,7 +112,10 @@ class Sys:
             elif op == "unregcli":
                 self.router.unregister_client(self.clients[ev[1]])
             elif op == "enable":
-                self.router.process_message(EnableBLOB(device=ev[2], value=ev[3]), sender=self.clients[ev[1]])
+                from indi.message import IndiMessage
+
+                m = IndiMessage.from_string(EnableBLOB(device=ev[2], value=ev[3]).to_string())
+                self.router.process_message(m, sender=self.clients[ev[1]])
             elif op == "send":
                 _, kind, dev, sender = ev
                 m = msg_of(kind, dev)
